@@ -380,6 +380,9 @@ impl<'r> Run<'r> {
             Some(Ok(d)) => {
                 if let Some(diff) = d.msg.diff(&self.model, self.nocase, false) {
                     self.findings.push(f(Prop::C09, format!("effect|{}", cls), format!("after {}: decoded message differs from the model: {}", what, diff)));
+                    if self.want != Prop::C09 {
+                        self.model = d.msg.clone();
+                    }
                     None
                 } else if view.is_err() {
                     None
@@ -535,8 +538,9 @@ pub fn run_history(rng: &mut Rng, mix: Mix) -> Outcome {
             break;
         }
         run.steps += 1;
-        let before = run.model.clone();
         let bytes_now = pp.packet().to_vec();
+        // "nothing changed" is judged against what the packet decoded to before the call, not against the model
+        let before = refparse(&bytes_now, RELAXED).map(|d| d.msg).unwrap_or_else(|_| run.model.clone());
         let strict = strict_state(&bytes_now);
         let compressed = pp.maybe_compressed;
         let err_step = run.rng.below(16) < mix.error_sixteenths;
@@ -809,7 +813,6 @@ fn session(run: &mut Run, pp: &mut ParsedPacket, kind: IterKind, err_step: bool,
         if run.halt() {
             return;
         }
-        let before = run.model.clone();
         let d = match check_view(cur.pp()) {
             Ok(d) => d,
             Err(fd) => {
@@ -822,6 +825,11 @@ fn session(run: &mut Run, pp: &mut ParsedPacket, kind: IterKind, err_step: bool,
                 }
             }
         };
+        let before = d.msg.clone();
+        if run.want != Prop::C09 && d.msg.diff(&run.model, run.nocase, false).is_some() {
+            // the model drifted for a reason that is another property's business: follow the bytes
+            run.model = d.msg.clone();
+        }
         let pos = match locate(&d, cur.offset()) {
             Some(p) => p,
             None => {
@@ -829,7 +837,16 @@ fn session(run: &mut Run, pp: &mut ParsedPacket, kind: IterKind, err_step: bool,
                 return;
             }
         };
-        let is_opt_rec = matches!(pos, Pos::Rec(s, i) if run.model.sec[s][i].is_opt());
+        // positions come from the bytes; the model may be shorter if it drifted in a C09 run
+        if let Pos::Rec(s, i) = pos {
+            if i >= run.model.sec[s].len() {
+                return;
+            }
+        }
+        if matches!(pos, Pos::Question) && run.model.question.is_empty() {
+            return;
+        }
+        let is_opt_rec = matches!(pos, Pos::Rec(s, i) if d.msg.sec[s][i].is_opt());
         let op = run.rng.below(100);
         let compressed = cur.pp().maybe_compressed;
         if op < 18 {
@@ -966,7 +983,7 @@ fn session(run: &mut Run, pp: &mut ParsedPacket, kind: IterKind, err_step: bool,
                             Pos::Question => None,
                             Pos::Rec(s, i) => {
                                 let skip = matches!(kind, IterKind::Additional);
-                                (i + 1..run.model.sec[s].len()).find(|&j| !(skip && run.model.sec[s][j].is_opt())).map(|j| Pos::Rec(s, j))
+                                (i + 1..d2.msg.sec[s].len()).find(|&j| !(skip && d2.msg.sec[s][j].is_opt())).map(|j| Pos::Rec(s, j))
                             }
                             _ => None,
                         };
